@@ -1861,7 +1861,8 @@ template< typename T, size_t N>
       auto const  dest_value = boost::lexical_cast< T>( list_val);
       if (mUniqueData)
       {
-         if (common::contains( mDestVar, dest_value))
+         // only search in the values that were stored already
+         if (common::contains( mDestVar, mIndex, dest_value))
          {
             if (mTreatDuplicatesAsErrors)
                throw std::runtime_error( "refuse to store duplicate values in"
@@ -2144,7 +2145,9 @@ template< typename T, size_t N>
       auto const  dest_value = boost::lexical_cast< T>( list_val);
       if (mUniqueData)
       {
-         if (common::contains( mDestVar, dest_value))
+         // only search in the values that were stored already
+         if (std::find( mDestVar.begin(), mDestVar.begin() + mIndex, dest_value)
+             != mDestVar.begin() + mIndex)
          {
             if (mTreatDuplicatesAsErrors)
                throw std::runtime_error( "refuse to store duplicate values in"
